@@ -5,10 +5,13 @@ CHECK = {
     "technique": "bounded-exhaustive enumeration of initial states x gamma x dt x layout x boundary mix x cell shape, "
                  "one real hydro step each through the real task functions, conserved totals / positivity oracle",
     "level_text": "Every assignment of a state alphabet (rest gas, dense cold, hot thin, supersonic +x/-x, near-vacuum "
-                  "1e-30; on the 4-cell grid also Mach 1.1-1.6 +x/-x around the wall-Mach limit) to the cells of 2x2x2, "
+                  "1e-30; on the 4-cell grid also Mach 1.1-1.6 +x/-x around the wall-Mach limit, a denormal state "
+                  "rho = P = 1e-310 whose cell mass has no finite reciprocal, and exact vacuum) to the cells of 2x2x2, "
                   "4x2x1 and 4x1x1 grids is advanced by one step for gamma in {1.0001, 1.4, 5/3, 2}, dt in {0.1, 0.5, 1} x "
                   "the code's own stability limit, subgrid layouts with 1 or 2 subgrids per axis, the 8 periodic/reflective "
-                  "boundary mixes plus one open mix, and cell aspects 1:1:1 and 1:2:4. 4x1x1: all 8^4 assignments; 8-cell "
+                  "boundary mixes plus one open mix, and cell aspects 1:1:1 and 1:2:4. 4x1x1: all 10^4 assignments; the denormal "
+                  "and vacuum states enter the 8-cell grids as inclusions (single cells, slabs, a lone gas cell in emptiness, "
+                  "next to rest / dense / supersonic gas); 8-cell "
                   "grids: one assignment per translation orbit, thorough five of the six states each (2x2x2 without -x, 4x2x1 "
                   "without hot thin; ~49 k assignments each), quick three-state sub-alphabets (891 / 834). The step runs through "
                   "make_hydro_tasks, set_dependencies, reset_hydro_tasks and execute_task of the real code in four "
